@@ -244,7 +244,38 @@ func (e *Engine) callFn(st *State, fr *Frame, fn *ssa.Function, bind []Value, ar
 		k(st, pack(e.applyContract(st, fr, fc, args, pos)))
 		return
 	}
+	// Package-level functions of side-effect-free library packages without a contract
+	// (strings.HasSuffix, strconv.Itoa, ...) are treated as uninterpreted pure functions of
+	// their arguments: sound for pure functions, and a contract whose truth depends on what
+	// the function computes then fails instead of the whole function being undecidable.
+	if pureLibPkgs[pkg] && fn.Signature.Recv() == nil {
+		ok := true
+		for _, a := range args {
+			switch a.(type) {
+			case *smt.Term, *SliceV, *StructV:
+			default:
+				ok = false
+			}
+		}
+		res := fn.Signature.Results()
+		for i := 0; i < res.Len(); i++ {
+			if scalarSort(res.At(i).Type()) == nil {
+				ok = false
+			}
+		}
+		if ok && res.Len() >= 1 {
+			e.UsedAssumed[e.fnKey(fn)+" (no contract: treated as an uninterpreted pure function of its arguments)"] = true
+			k(st, e.ufApp(st, "lib$"+e.fnKey(fn), res, args))
+			return
+		}
+	}
 	e.fail("call of %s at %s: no contract and no inlinable body", e.fnKey(fn), e.pos(pos))
+}
+
+// pureLibPkgs: library packages whose package-level functions have no side effects.
+var pureLibPkgs = map[string]bool{
+	"strings": true, "strconv": true, "unicode": true, "unicode/utf8": true, "math": true,
+	"path": true, "path/filepath": true, "net/textproto": true, "bytes": true, "sort": false,
 }
 
 func (e *Engine) inline(st *State, fr *Frame, fn *ssa.Function, bind []Value, args []Value, pos token.Pos, k func(*State, Value)) {
